@@ -1504,8 +1504,16 @@ def explore(ctx, run_once, max_paths=200000):
     ctx.worklist = [[]]
     records = []
     ctx.exploring += 1
+    # a cooperative wall-clock budget (well inside the work unit's hard limit): a change that multiplies the
+    # paths of a sort ends as "more than .. paths", which the callers that expect it report as an open
+    # path-budget obligation instead of being killed with nothing to show
+    thorough = os.environ.get("VERIF_TIER", "quick") == "thorough" or "--tier thorough" in " ".join(sys.argv)
+    budget = float(os.environ.get("PYVC_EXPLORE_BUDGET_S", "0") or 0) or (1800.0 if thorough else 300.0)
+    deadline = time.time() + budget
     try:
         while ctx.worklist:
+            if time.time() > deadline and records:
+                raise EngineError(f"more than {budget:.0f} s spent exploring paths ({ctx.npaths} paths so far)")
             sched = ctx.worklist.pop()
             ctx.begin_path(sched)
             rec = PathRecord()
